@@ -20,10 +20,19 @@ WL = {
 }
 
 
+WL["D"] = dict(WL["A"], default_preset=True)
+WL["E"] = dict(WL["C"], default_preset=True)
+HOOK = {}
+
+
 def ser_gen(integ, w):
     """generator: one serialized frame (bytes) per step"""
     spec = WL[w]
-    opts = pj.make_options(spec["phys"], frame_size=1, prefixes=spec["pf"], datatypes=spec["dt"], generalized=False, rdf_star=False)
+    if spec.get("default_preset"):
+        # the library's default table sizes (4000 / 150 / 32)
+        opts = pj.make_options(spec["phys"], frame_size=1, names=4000, prefixes=150, datatypes=32, generalized=False, rdf_star=False)
+    else:
+        opts = pj.make_options(spec["phys"], frame_size=1, prefixes=spec["pf"], datatypes=spec["dt"], generalized=False, rdf_star=False)
     if integ == "generic":
         from pyjelly.integrations.generic.serialize import flat_stream_to_frames
         conv = pj.terms.item_to_generic
@@ -51,7 +60,7 @@ def parse_gen(integ, w):
 _SHARED = {}
 
 
-def stream_gen(integ, w, shared):
+def stream_gen(integ, w, shared, lazy=False):
     """generator at STATEMENT granularity on the Stream API: yields after every stream.triple()/quad() call.
     With shared=True every workload is built from ONE SerializerOptions object (a module-level constant, as users do)."""
     spec = WL[w]
@@ -66,10 +75,34 @@ def stream_gen(integ, w, shared):
     stream = pj.gen_stream(phys, opts) if integ == "generic" else pj.PHYS_STREAM[phys].for_rdflib(opts)
     conv = pj.terms.item_to_generic if integ == "generic" else pj.rdf_item
     stream.enroll()
-    for it in spec["items"]:
-        fr = (stream.triple if phys == 1 else stream.quad)(conv(it))
+    for n_it, it in enumerate(spec["items"]):
+        terms = conv(it)
+        if lazy:
+            # lazily produced terms: between two terms of ONE statement the other workload may be advanced (re-entrancy)
+            def gen(ts=tuple(terms), k=n_it):
+                for j, t in enumerate(ts):
+                    if j == 1 and HOOK.get((w, k)):
+                        HOOK.pop((w, k))()
+                    yield t
+            terms = gen()
+        fr = (stream.triple if phys == 1 else stream.quad)(terms)
         yield pj.write_frames([fr], True) if fr is not None else b""
     fr = stream.flow.to_stream_frame()
+    yield pj.write_frames([fr], True) if fr is not None else b""
+
+
+def dsflow_gen(integ, w):
+    """QuadStream configured through an explicit DatasetsFrameFlow() (class-level default logical type)"""
+    from pyjelly.serialize.flows import DatasetsFrameFlow
+    spec = WL["B"]
+    opts = pj.make_options(2, flow=DatasetsFrameFlow(), prefixes=4, datatypes=4, generalized=False, rdf_star=False)
+    stream = pj.gen_stream(2, opts) if integ == "generic" else pj.PHYS_STREAM[2].for_rdflib(opts)
+    conv = pj.terms.item_to_generic if integ == "generic" else pj.rdf_item
+    stream.enroll()
+    for it in spec["items"]:
+        stream.quad(conv(it))
+        yield b""
+    fr = stream.flow.frame_from_dataset()
     yield pj.write_frames([fr], True) if fr is not None else b""
 
 
@@ -78,6 +111,10 @@ def make(kind, integ, w):
         return stream_gen(integ, w, False)
     if kind == "sstream":
         return stream_gen(integ, w, True)
+    if kind == "lstream":
+        return stream_gen(integ, w, False, lazy=True)
+    if kind == "dsflow":
+        return dsflow_gen(integ, w)
     return ser_gen(integ, w) if kind == "ser" else parse_gen(integ, w)
 
 
@@ -86,6 +123,9 @@ def history(h, integ):
     if h >= 1:
         g = ser_gen(integ, "C")
         next(g)          # started, one frame taken, never finished
+        # a stream created earlier with a logical SUB-type (NAMED_GRAPHS) and abandoned
+        o14 = pj.make_options(2, logical=14, generalized=False, rdf_star=False)
+        (pj.gen_stream(2, o14) if integ == "generic" else pj.PHYS_STREAM[2].for_rdflib(o14))
     if h >= 2:
         opts = pj.make_options(1, frame_size=10, datatypes=0)
         stream = pj.gen_stream(1, opts) if integ == "generic" else pj.PHYS_STREAM[1].for_rdflib(opts)
@@ -115,6 +155,15 @@ def interleave(sched: List[bool], h: int) -> bool:
         history(hv, integ)
         gens = [make(k, integ, w) for k, w in ws]
         outs = [[] for _ in ws]
+        HOOK.clear()
+        if ws[0][0] == "lstream" and len(ws) == 2:
+            # in the middle of workload 0's second statement, workload 1 is advanced by one step
+            def hook():
+                try:
+                    outs[1].append(next(gens[1]))
+                except StopIteration:
+                    pass
+            HOOK[(ws[0][1], 1)] = hook
         alive = [True] * len(ws)
         for step in sched:
             i = 0 if step else 1
